@@ -46,6 +46,21 @@ def types():
     return out
 
 
+def eq_types():
+    """types for the C18 pass (harness mode `eq`): all of types() plus containers whose DIRECT elements are sequences
+    (std compares arrays / slices / Vecs element-wise through `!=`)"""
+    out = [(d, ty) for d, ty, _ in types()]
+    for el in ("a", "c"):
+        for k in (0, 1, 2):
+            et = ELEMS[el][0]
+            sq = "Seq2<Skipped<%s, Blank1, %d>, Skipped<ElB, Blank1, %d>>" % (et, k, k)
+            out.append(("arr2seq:%s:%d" % (el, k), "[%s; 2]" % sq))
+            out.append(("arepseq:%s:%d" % (el, k), "AtomicRepeat<%s>" % sq))
+            sq3 = "Seq3<Skipped<%s, Blank1, %d>, Skipped<ElB, Blank1, %d>, Skipped<ElC, Blank1, %d>>" % (et, k, k, k)
+            out.append(("arepseq3:%s:%d" % (el, k), "AtomicRepeat<%s>" % sq3))
+    return out
+
+
 def default_shape(node):
     if node[0] == "rep":
         return "()"
@@ -148,6 +163,11 @@ def write_sources():
     if not os.path.exists(p) or open(p).read() != src:
         with open(p, "w") as f:
             f.write(src)
+    src = "{\n" + "".join('    eq_one::<%s>("%s", &inputs, &mut out);\n' % (ty, d) for d, ty in eq_types()) + "}\n"
+    p = os.path.join(HARNESS, "src", "eq_types.rs")
+    if not os.path.exists(p) or open(p).read() != src:
+        with open(p, "w") as f:
+            f.write(src)
 
 
 def check_skip_counts(ctx, maxlen):
@@ -214,3 +234,45 @@ def check_skip_counts(ctx, maxlen):
     ctx.coverage["skipn_mismatches"] = bad
     ctx.oblige("raw repetitions / sequences with SKIP in 0..3 and bounded skip nodes == counting specification on %d (type, input) pairs" % n,
                bad == 0 and n > 0)
+
+
+def check_eq(ctx, maxlen):
+    """C18 on the raw combinators with explicit skip counts (mode `eq` of harness/unitskip)"""
+    write_sources()
+    sub = None if os.path.realpath(REPO) == "/repo" else "alt-" + sha(os.path.realpath(REPO))[:10]
+    ok, out = build.cargo_build(HARNESS, "debug", target_sub=sub)
+    ctx.oblige("cargo build harness/unitskip (eq / hash / Debug of raw combinators with SKIP in 0..3) against %s" % REPO, ok, "" if ok else out[-1500:])
+    if not ok:
+        ctx.violation("the raw combinators instantiated with SKIP >= 2 no longer compile", {"log": out[-3000:]}, found_input=False)
+        return
+    p = subprocess.run([os.path.join(out, "unitskip"), str(maxlen), "eq"], capture_output=True, text=True, timeout=3000)
+    if p.returncode != 0:
+        ctx.violation("harness/unitskip (eq mode) crashed", {"rc": p.returncode, "stderr": p.stderr[-2000:]}, found_input=False)
+        return
+    tys = dict(eq_types())
+    nv = ng = nbad = 0
+    shown = 0
+    for line in p.stdout.split("\n"):
+        if not line:
+            continue
+        d, tag, values, groups, bad, wit = line.split("\t")
+        nv += int(values)
+        ng += int(groups)
+        ctx.evaluations += int(values)
+        if int(groups) > 1:
+            ctx.nontrivial.add(("skipn-eq", d))
+        if int(bad):
+            nbad += int(bad)
+            if shown < 3:
+                shown += 1
+                kind, _, hexes = wit.partition(":")
+                ins = [bytes.fromhex(x).decode() if x != "-" else "" for x in hexes.split(",")]
+                ctx.violation("raw combinator values: %s for %s parsed from %r" % (kind.replace("-", " "), tys[d], ins),
+                              {"type": tys[d], "inputs": ins, "kind": kind, "cases_of_this_type": int(bad),
+                               "rerun": ".cache/target/debug/unitskip %d eq | grep -F '%s'" % (maxlen, d)})
+    ctx.coverage["skipn_eq_types"] = len(tys)
+    ctx.coverage["skipn_eq_values"] = nv
+    ctx.coverage["skipn_eq_distinct_renderings"] = ng
+    ctx.coverage["skipn_eq_bad"] = nbad
+    ctx.oblige("raw combinators with SKIP in 0..3: == iff same {:?}, == implies same hash, != is not ==, clone equal, on %d values (%d renderings)" % (nv, ng),
+               nbad == 0 and nv > 0)
